@@ -217,7 +217,7 @@ func main() {
 	mut := *hlib.FlagMode == "mut"
 	// crypto/rand is served from a seeded tape: nonces, DEKs and key ids are functions of the seed, so
 	// the op lines (and hence every replay) are reproducible and the pre and main phases see the same bytes.
-	hlib.InstallTape(*hlib.FlagSeed)
+	tape := hlib.InstallTape(*hlib.FlagSeed)
 	rng := hlib.NewRng(*hlib.FlagSeed, "c01"+*hlib.FlagMode)
 	n := hlib.N(500, 15000)
 	for i := 0; i < n; i++ {
@@ -236,6 +236,8 @@ func main() {
 	runKeysets(o, hlib.NewRng(*hlib.FlagSeed, "c01ks"+*hlib.FlagMode), mut)
 	runKMS(o, hlib.NewRng(*hlib.FlagSeed, "c01kms"+*hlib.FlagMode), mut)
 	runAADBits(o, hlib.NewRng(*hlib.FlagSeed, "c01aad"+*hlib.FlagMode))
+	// nonces / IVs that crypto/rand reaches with probability ≤ 2^-56: counter carries of every width (special.go)
+	runSpecial(o, hlib.NewRng(*hlib.FlagSeed, "c01special"+*hlib.FlagMode), tape, mut)
 	// last (it registers a key manager and more KMS stubs): keyset shapes × legacy-adapter / full primitives ×
 	// prefix types × prefix mutations and short inputs (adapter.go)
 	runAdapters(o, hlib.NewRng(*hlib.FlagSeed, "c01adp"+*hlib.FlagMode), mut)
